@@ -231,6 +231,12 @@ def stores_of(node: Node, edge_kind: str = None) -> Set[str]:
 
     if node.kind == "for":
         tgt(a.target)  # type: ignore[attr-defined]
+        # plain locals (re)bound inside the body are per-iteration temporaries: what was known about the previous iteration's
+        # value must not survive into the statements that precede the rebinding in the next iteration
+        for st in a.body:  # type: ignore[attr-defined]
+            for x in ast.walk(st):
+                if isinstance(x, ast.Name) and isinstance(x.ctx, ast.Store):
+                    out.add(x.id)
         return out
     if node.kind == "with":
         for it in a.items:  # type: ignore[attr-defined]
